@@ -33,6 +33,7 @@ type FuncContract struct {
 	Pkg       string
 	Props     []string
 	Requires  []*Clause
+	Captures  []*Clause // closures: facts about the captured variables, checked where the closure is created
 	Ensures   []*Clause
 	Modifies  []Expr
 	ModAll    []string // whole heap arrays: "lexer.pos"
@@ -235,7 +236,7 @@ func (sp *Specs) LoadSpecFile(path, pkgPath string) error {
 				return fail("duplicate contract for %s", key)
 			}
 			sp.Funcs[key] = cur
-		case "requires", "ensures", "ghostdef":
+		case "requires", "ensures", "ghostdef", "captures":
 			if cur == nil {
 				return fail("%s outside func", word)
 			}
@@ -246,6 +247,8 @@ func (sp *Specs) LoadSpecFile(path, pkgPath string) error {
 			switch word {
 			case "requires":
 				cur.Requires = append(cur.Requires, c)
+			case "captures":
+				cur.Captures = append(cur.Captures, c)
 			case "ensures":
 				cur.Ensures = append(cur.Ensures, c)
 			case "ghostdef":
